@@ -178,7 +178,10 @@ SPEC = {
                 "request with the arguments as the buffers read at the call, with corresponding answers (chain: memory model -> value model -> spec); "
                 "Go oracles caller-write-changed-stored-data, caller-buffer-changed, batch-commit-contract. (3) nil vs empty slices for keys, "
                 "prefixes, realms, values on every call incl. batches; C04_has_iff_get_iff_iterated (Has <=> Get succeeds <=> the iterations "
-                "report the key, zero-length keys and values included).",
+                "report the key, zero-length keys and values included). (4) bulk histories (120..400 entries through one big batch, long values), "
+                "occasional long keys / values, negative CopyBatched batch sizes; Copy / CopyBatched probed with a target that is closed during "
+                "the copy; every hand-modelled helper (Copy, CopyBatched, GetIterDirection, KeyPrefixUpperBound, SortSlice, CopyBytes, ConcatBytes, "
+                "ConcatBytesToString, ReadAvailableBytesToBuffer, the constructors) pinned as normalised source text (C04_helper_functions_text).",
         "note": "Trusted: Lean kernel; the three go/ast translators and the interpreters of the translated method bodies (the map / view / batch / "
                 "wrapper functions of the model are proved equal to the interpreted source; primitive: Go map, HasPrefix, copies, SortSlice), all "
                 "validated differentially on every run; the specification file. The private-copy clause is proved over the memory models KVHeap "
